@@ -54,6 +54,11 @@ func NewSubRingWithCustomNTT(N int, Modulus uint64, ntt func(*SubRing, int) Numb
 		panic(fmt.Errorf("invalid NthRoot: NthRoot=%d should be greater than 0", NthRoot))
 	}
 
+	// The reduction constants below are quotients by the modulus
+	if Modulus == 0 {
+		return nil, fmt.Errorf("invalid modulus: 0")
+	}
+
 	s = &SubRing{}
 
 	s.N = N
